@@ -19,3 +19,15 @@ Definition jtrace (t : list (key * list pval)) : J :=
 Definition run_perdict (c : list arg * datain * expin) : J :=
   let '(args, d, x) := c in
   let r := perdict fdigits args d x in JL [jresult (fst r); jtrace (snd r)].
+
+(* dict-output path *)
+Definition jrowN (r : key * list pval) : J := JL [jkey (fst r); JL (map pv (snd r))].
+Definition jresultN (r : resultN) : J :=
+  match r with
+  | NScalar outs => JL [JS "dscalar"; JL (map pv outs)]
+  | NEmpty caches => JL [JS "dempty"; JL (map (fun d => match d with Some rows => JL (map jrow rows) | None => JS "None" end) caches)]
+  | NTable rows => JL [JS "dict"; JL (map jrowN rows)]
+  end.
+Definition run_perdictN (c : list arg * list datain * expin) : J :=
+  let '(args, caches, x) := c in
+  let r := perdictN (fouts (List.length caches)) args caches x in JL [jresultN (fst r); jtrace (snd r)].
